@@ -153,6 +153,17 @@ def dyn_signature(arrays: Obj):
     return ("M", tuple(keys))
 
 
+def field_signature(arrays: Obj):
+    """History of the fields alone (detector states may lag behind when a step does not record them)."""
+    keys = [(p, leaf_key(v)) for p, v in _leaves(arrays.attrs["fields"], ("fields",))]
+    h = _uniform(keys, "S")
+    if h is not None:
+        return h
+    if all(k == ("const", "0") for _, k in keys):
+        return ("zero-fields",)
+    return ("M", tuple(keys))
+
+
 def rec_signature(arrays: Obj):
     rs = arrays.attrs.get("recording_state")
     if rs is None:
@@ -162,11 +173,15 @@ def rec_signature(arrays: Obj):
     return h if h is not None else ("M", tuple(keys))
 
 
-def with_history(arrays: Obj, h, rec_h=None):
-    """The same container with every dynamic leaf replaced by the token of history h."""
+def with_history(arrays: Obj, h, rec_h=None, fields_only=False):
+    """The same container with every dynamic leaf replaced by the token of history h (a step that does not record
+    detectors leaves the detector states as they are: fields_only)."""
     new_fields = _map_leaves(arrays.attrs["fields"], lambda p, v: atom("S", p, h), ("fields",))
-    new_det = _map_leaves(arrays.attrs["detector_states"], lambda p, v: atom("S", p, h), ("det",))
-    out = arrays.replace(fields=new_fields, detector_states=new_det)
+    if fields_only:
+        out = arrays.replace(fields=new_fields)
+    else:
+        new_det = _map_leaves(arrays.attrs["detector_states"], lambda p, v: atom("S", p, h), ("det",))
+        out = arrays.replace(fields=new_fields, detector_states=new_det)
     if rec_h is not None and arrays.attrs.get("recording_state") is not None:
         out = out.replace(recording_state=_map_leaves(arrays.attrs["recording_state"], lambda p, v: atom("R", p, rec_h), ("rec",)))
     return out
@@ -337,7 +352,7 @@ class Driver:
         rec_h = None
         if kw.get("record_boundaries") is not False and kw.get("record_boundaries") is not None:
             rec_h = fuse_rec(flags + rflag, t, t + 1, rec_signature(arrays), dyn_signature(arrays))
-        return (t + 1, with_history(arrays, h, rec_h))
+        return (t + 1, with_history(arrays, h, rec_h, fields_only=kw.get("record_detectors") is False))
 
     def _backward(self, it, a, k):
         names = ("state", "config", "objects", "key", "record_detectors", "reset_fields", "fields_to_reset")
@@ -348,7 +363,7 @@ class Driver:
         t = to_rat(t)
         self.events.append(("backward", t, flags, dyn_signature(arrays), rec_signature(arrays)))
         h = fuse("bwd", flags, t, t - 1, dyn_signature(arrays))
-        return (t - 1, with_history(arrays, h))
+        return (t - 1, with_history(arrays, h, fields_only=kw.get("record_detectors") is False))
 
     def _custom_vjp(self, it, a, k):
         rec = {"primal": a[0], "fwd": None, "bwd": None}
@@ -458,7 +473,7 @@ class Driver:
         rec_h = None
         if kind == "forward" and dict(flags).get("record_boundaries") not in (False, None):
             rec_h = fuse_rec(flags, t0, t_exit, rec_signature(arrs0), dyn_signature(arrs0))
-        final_arr = with_history(arrs0, h, rec_h)
+        final_arr = with_history(arrs0, h, rec_h, fields_only=dict(flags).get("record_detectors") is False)
         rec.final = (t_exit, final_arr)
         if nested:
             return ((t_exit, final_arr), out[1])
